@@ -17,6 +17,7 @@ import json
 import logging
 import os
 import shutil
+import threading
 import time
 
 from harness.common import coq
@@ -26,7 +27,8 @@ ID = 'C08'
 PROPS = 'theories/Props/C08.v'
 MODEL_TARGETS = ['theories/C08/Run.vo']
 TRANSLATORS = [saveprog.translate]
-TIE = ('translator (JSONDriver._save -> op list, _load -> decision tree; decision procedure re-run by vm_compute) + '
+TIE = ('translator (JSONDriver._save -> op list, _load -> decision tree, every saving method -> operation tree; decision '
+       'procedures re-run by vm_compute) + '
        'exhaustive crash-state correspondence on the real driver (system-call trace, crash states, load outcomes)')
 ALLOWED_AXIOMS = []
 TRUSTED_BASE = [
@@ -43,6 +45,8 @@ ASSUMPTIONS = [
     'serialisation premises of the theorems: loads(dumps(d)) = d, the empty text and every proper non-empty prefix of '
     'dumps(d) do not parse (proved for framed decoders; tested on every payload prefix by the harness)',
     'the driver is file-backed (file_path set) and no other process touches its three files',
+    'an operation is one synchronous step of the event loop (no await between the in-memory change and the end of its '
+    'single save): checked syntactically by the translator and, for overlapping requests, by the harness',
     'the theorem starts from files left by this save procedure (or no files); a data file corrupted by other means is '
     'outside the statement',
 ]
@@ -114,8 +118,29 @@ def gen_history(rng):
         r = rng.random()
         if rng.random() < 0.12:
             ops.append({'op': 'crash', 'pick': rng.random()})
+        if rng.random() < 0.12:
+            # two modifying requests in flight at the same time (two API requests)
+            pair = []
+            for j in range(2):
+                if rng.random() < 0.7 or not ids[c]:
+                    rid = 'c%d_%d' % (len(ops), j)
+                    pair.append({'op': 'insert', 'coll': c, 'record': dict(gen_record(rng), id=rid)})
+                    ids[c].append(rid)
+                else:
+                    pair.append({'op': 'update', 'coll': c, 'part': {'mark%d' % j: rng.randint(0, 9)},
+                                 'filt': rng.choice([{}, {'id': rng.choice(ids[c])}])})
+            ops.append({'op': 'concurrent', 'ops': pair})
+            continue
+        if len(ids[c]) >= 2 and rng.random() < 0.15:
+            # operations on several records at once: every matching record, or none, must be changed after a crash
+            if rng.random() < 0.5:
+                ops.append({'op': 'remove', 'coll': c, 'filt': rng.choice([{}, {'id': {'in': ids[c][:3]}}, {'grp': 0}])})
+            else:
+                ops.append({'op': 'update', 'coll': c, 'part': gen_record(rng), 'filt': rng.choice([{}, {'grp': 0}])})
+            continue
         if r < 0.5 or not ids[c]:
             rec = gen_record(rng, big)
+            rec['grp'] = rng.randint(0, 1)
             if rng.random() < 0.2:
                 rec['id'] = 'x%d' % len(ops)
                 ids[c].append(rec['id'])
@@ -142,10 +167,56 @@ class Recorder:
         self.events = []
         self.fd_path = {}
         self.active = False
+        self.n_handles = 0
+        self.off_thread = False
+        # overlapping operations: when saves run on worker threads, hold the first one right before its first rename until
+        # a second one has opened (truncated) its file, and hold the second one until the first operation has been
+        # acknowledged - one legal schedule, chosen so that the run is reproducible
+        self.concurrent = False
+        self.lock = threading.Lock()
+        self.creators = []
+        self.stalled = False
+        self.second_open = threading.Event()
+        self.first_acked = threading.Event()
+
+    def reset(self, concurrent=False):
+        self.events = []
+        self.concurrent = concurrent
+        self.creators = []
+        self.stalled = False
+        self.second_open = threading.Event()
+        self.first_acked = threading.Event()
 
     def add(self, *ev):
         if self.active:
+            if threading.current_thread() is not threading.main_thread():
+                self.off_thread = True
             self.events.append(ev)
+
+    def _worker(self):
+        return self.active and self.concurrent and threading.current_thread() is not threading.main_thread()
+
+    def after_create(self):
+        if not self._worker():
+            return
+        tid = threading.get_ident()
+        with self.lock:
+            if tid not in self.creators:
+                self.creators.append(tid)
+            second = len(self.creators) >= 2 and tid == self.creators[1]
+        if second:
+            self.second_open.set()
+            self.first_acked.wait(0.5)
+
+    def before_rename(self):
+        if not self._worker():
+            return
+        with self.lock:
+            first = bool(self.creators) and threading.get_ident() == self.creators[0] and not self.stalled
+            if first:
+                self.stalled = True
+        if first:
+            self.second_open.wait(0.5)
 
 
 class _PathProxy:
@@ -170,16 +241,29 @@ class _OsProxy:
         self.path = _PathProxy(rec)
 
     def rename(self, a, b):
+        self._rec.before_rename()
+        try:
+            r = os.rename(a, b)
+        except Exception as e:
+            self._rec.add('failed', 'rename', type(e).__name__)
+            raise
         self._rec.add('rename', a, b)
-        return os.rename(a, b)
+        return r
 
     def replace(self, a, b):
+        self._rec.before_rename()
+        try:
+            r = os.replace(a, b)
+        except Exception as e:
+            self._rec.add('failed', 'replace', type(e).__name__)
+            raise
         self._rec.add('rename', a, b)
-        return os.replace(a, b)
+        return r
 
     def remove(self, p):
+        r = os.remove(p)
         self._rec.add('remove', p)
-        return os.remove(p)
+        return r
 
     unlink = remove
 
@@ -200,15 +284,15 @@ class _OsProxy:
 
 
 class _FileProxy:
-    def __init__(self, f, path, rec):
-        self._f, self._path, self._rec = f, path, rec
+    def __init__(self, f, path, rec, hid):
+        self._f, self._path, self._rec, self._hid = f, path, rec, hid
 
     def write(self, b):
-        self._rec.add('write', self._path, bytes(b))
+        self._rec.add('write', self._path, bytes(b), self._hid)
         return self._f.write(b)
 
     def flush(self):
-        self._rec.add('flush', self._path)
+        self._rec.add('flush', self._path, self._hid)
         return self._f.flush()
 
     def fileno(self):
@@ -218,7 +302,7 @@ class _FileProxy:
 
     def close(self):
         if not self._f.closed:
-            self._rec.add('close', self._path)
+            self._rec.add('close', self._path, self._hid)
         return self._f.close()
 
     def __enter__(self):
@@ -236,8 +320,13 @@ class _FileProxy:
 def make_open(rec):
     def rec_open(path, mode='r', *a, **k):
         if mode in ('wb', 'w'):
-            rec.add('create', path)
-            return _FileProxy(open(path, mode, *a, **k), path, rec)
+            f = open(path, mode, *a, **k)
+            with rec.lock:
+                rec.n_handles += 1
+                hid = rec.n_handles
+            rec.add('create', path, hid)
+            rec.after_create()
+            return _FileProxy(f, path, rec, hid)
         if mode in ('rb', 'r'):
             return open(path, mode, *a, **k)
         rec.add('unsupported', 'open mode %r' % (mode,))
@@ -260,78 +349,95 @@ def prefix_lengths(n, rng):
 
 def crash_states(fs0, events, rng):
     """-> (list of (point, files), final files, error or None).  files: dict basename -> bytes.
-    point = {'event': i, 'call': text, 'prefix': k or None}: the process dies before call i (prefix None), or inside
-    write i after k bytes; the last entry is the state after the last call.
-    Bytes written through a buffered file object are only known to be in the file after flush()/close(): until then
-    any prefix of them may be (point['unflushed'] = how many)."""
-    fs = dict(fs0)
-    pend = {}     # basename -> bytes written but not yet flushed
+    point = {'event': i, 'call': text, 'prefix': k or None, 'acked': [...]}: the process dies before call i (prefix None), or
+    inside write i after k bytes; the last entry is the state after the last call.  acked = the operations of an overlapping
+    batch that had returned to their caller by then.
+    Files are tracked as inodes: a rename moves the name, an open file object keeps writing to its inode.  Bytes written
+    through a buffered file object are only known to be in the file after flush()/close(): until then any prefix of them
+    may be (point['unflushed'] = how many bytes per open handle)."""
+    inodes, names, handle, pend = {}, {}, {}, {}
+    for n, b in fs0.items():
+        inodes[len(inodes)] = b
+        names[n] = len(inodes) - 1
+    acked = []
     out = []
 
+    def files_now(choice=None):
+        extra = {}
+        for h in sorted(pend):
+            k = len(pend[h]) if choice is None else choice[h]
+            extra[handle[h]] = extra.get(handle[h], b'') + pend[h][:k]
+        return {n: inodes[i] + extra.get(i, b'') for n, i in names.items()}
+
     def emit(i, call, prefix=None):
-        if not pend:
-            out.append(({'event': i, 'call': call, 'prefix': prefix}, dict(fs)))
+        live = [h for h in sorted(pend) if pend[h]]
+        if not live:
+            out.append(({'event': i, 'call': call, 'prefix': prefix, 'acked': list(acked)}, files_now()))
             return
-        names = sorted(pend)
-        lists = [prefix_lengths(len(pend[n]), rng) for n in names]
-        if len(names) > 1:
+        lists = [prefix_lengths(len(pend[h]), rng) for h in live]
+        if len(live) > 1:
             lists = [sorted(set(ks[:20] + ks[-20:])) for ks in lists]
         combos = [[]]
         for ks in lists:
             combos = [c + [k] for c in combos for k in ks]
         for c in combos:
-            files = dict(fs)
-            for n, k in zip(names, c):
-                files[n] = fs.get(n, b'') + pend[n][:k]
-            out.append(({'event': i, 'call': call, 'prefix': prefix, 'unflushed': dict(zip(names, c))}, files))
+            choice = dict(zip(live, c))
+            out.append(({'event': i, 'call': call, 'prefix': prefix, 'acked': list(acked),
+                         'unflushed': {str(h): k for h, k in choice.items()}}, files_now({**{h: 0 for h in pend}, **choice})))
+
+    def commit(h):
+        if pend.get(h):
+            inodes[handle[h]] = inodes[handle[h]] + pend[h]
+        pend.pop(h, None)
 
     i = -1
     for i, ev in enumerate(events):
         kind = ev[0]
+        if kind == 'ack':
+            acked.append(ev[1])
+            continue
         if kind not in MUTATING:
             continue
         name = os.path.basename(ev[1])
-        call = '%s(%s)' % (kind, ', '.join(os.path.basename(x) if isinstance(x, str) else '<%d bytes>' % len(x) for x in ev[1:]))
+        call = '%s(%s)' % (kind, ', '.join(os.path.basename(x) if isinstance(x, str) else '<%d bytes>' % len(x)
+                                           for x in ev[1:] if not isinstance(x, int)))
         emit(i, call)
         if kind == 'rename':
-            if name not in fs:
-                return out, fs, 'rename of a missing file in the recorded trace'
-            dst = os.path.basename(ev[2])
-            fs[dst] = fs.pop(name)
-            pend.pop(dst, None)
-            if name in pend:
-                pend[dst] = pend.pop(name)
+            if name not in names:
+                return out, files_now(), 'rename of a missing file in the recorded trace'
+            names[os.path.basename(ev[2])] = names.pop(name)
         elif kind == 'remove':
-            if name not in fs:
-                return out, fs, 'remove of a missing file in the recorded trace'
-            del fs[name]
-            pend.pop(name, None)
+            if name not in names:
+                return out, files_now(), 'remove of a missing file in the recorded trace'
+            del names[name]
         elif kind == 'create':
-            fs[name] = b''
-            pend.pop(name, None)
+            if name in names:
+                inodes[names[name]] = b''     # truncated in place: other handles on it keep pointing at it
+            else:
+                inodes[len(inodes)] = b''
+                names[name] = len(inodes) - 1
+            handle[ev[2]] = names[name]
         elif kind == 'write':
-            if name not in fs:
-                return out, fs, 'write to a missing file in the recorded trace'
-            others = {n: b for n, b in pend.items() if n != name}
-            if others:
-                pend[name] = pend.get(name, b'') + ev[2]
+            h = ev[3]
+            if h not in handle:
+                return out, files_now(), 'write through an unknown handle in the recorded trace'
+            if any(pend.get(x) for x in pend if x != h):
+                pend[h] = pend.get(h, b'') + ev[2]
             else:
                 # the usual case: label each state with the number of bytes of this write that reached the file
-                base, data = fs[name] + pend.get(name, b''), ev[2]
-                for k in prefix_lengths(len(data), rng):
+                before = len(pend.get(h, b''))
+                pend[h] = pend.get(h, b'') + ev[2]
+                for k in prefix_lengths(len(ev[2]), rng):
                     if k:
-                        out.append(({'event': i, 'call': call, 'prefix': k}, dict(fs, **{name: base + data[:k]})))
-                pend[name] = pend.get(name, b'') + data
+                        out.append(({'event': i, 'call': call, 'prefix': k, 'acked': list(acked)},
+                                    files_now({x: (before + k if x == h else 0) for x in pend})))
         elif kind in ('flush', 'close'):
-            if name in pend:
-                if name not in fs:
-                    return out, fs, 'flush of a missing file in the recorded trace'
-                fs[name] = fs[name] + pend.pop(name)
+            commit(ev[2])
         # fsync: the python-level buffer is not flushed by os.fsync; nothing changes in a process-crash model
     emit(i + 1, 'return')
-    for n, b in pend.items():
-        fs[n] = fs.get(n, b'') + b
-    return out, fs, None
+    for h in list(pend):
+        commit(h)
+    return out, files_now(), None
 
 
 def read_dir(d):
@@ -388,6 +494,9 @@ class Runner:
             return 'fail', type(e).__name__
 
     def apply(self, driver, op):
+        return asyncio.run(self.op_coro(driver, op))
+
+    def op_coro(self, driver, op):
         async def go():
             if op['op'] == 'insert':
                 return await driver.insert(op['coll'], dec(op['record']))
@@ -398,7 +507,94 @@ class Runner:
             if op['op'] == 'remove':
                 return await driver.remove(op['coll'], dec(op['filt']))
             raise ValueError(op['op'])
-        return asyncio.run(go())
+        return go()
+
+    def simulate(self, pre, ops, h):
+        """the store after applying ops to pre, computed on an in-memory driver of the same class (no files)"""
+        d = self.jsonmod.JSONDriver(None, pretty_format=h['pretty'], use_backup=h['use_backup'])
+        d._data = copy.deepcopy(pre)
+        for o in ops:
+            try:
+                asyncio.run(self.op_coro(d, o))
+            except Exception:
+                pass
+        return d._data
+
+    def run_batch(self, driver, op, h, rec, live, path, recd, rpath, done_ops, origin):
+        """two operations in flight at once (asyncio.gather), then every crash state of the whole batch: a restart must see
+        pre plus a set of the batch's operations that contains every operation acknowledged before the crash.
+        -> False when the history cannot go on"""
+        rng = self.ctx.rng
+        ops = op['ops']
+        fs0 = read_dir(live)
+        st, pre = self.fresh(path, h)
+        if st != 'ok':
+            self.res['tie_failures'].append('files at rest do not load: %s' % pre)
+            return False
+        pre = copy.deepcopy(pre)
+        cands = [(frozenset(), pre)]
+        for order in ([0], [1], [0, 1], [1, 0]):
+            cands.append((frozenset(order), self.simulate(pre, [ops[j] for j in order], h)))
+
+        async def one(j):
+            r = await self.op_coro(driver, ops[j])
+            rec.add('ack', j)
+            rec.first_acked.set()
+            return r
+
+        async def both():
+            return await asyncio.gather(one(0), one(1), return_exceptions=True)
+        rec.reset(concurrent=True)
+        rec.active = True
+        try:
+            results = asyncio.run(both())
+        finally:
+            rec.active = False
+            rec.concurrent = False
+        events = rec.events
+        self.bump('op:concurrent')
+        self.stats['saves'] += sum(1 for e in events if e[0] == 'create')
+        hist = {'use_backup': h['use_backup'], 'pretty': h['pretty'], 'ops': list(done_ops)}
+        errors = ['%s: %s' % (type(r).__name__, r) for r in results if isinstance(r, Exception)]
+        fs1 = read_dir(live)
+        post_mem = copy.deepcopy(driver._data)
+        st, post = self.fresh(path, h)
+        if errors or st != 'ok' or post != post_mem:
+            self.add_violation(
+                ('overlapping operations: completed batch not readable', 'failure' if (st != 'ok' or errors) else 'other',
+                 h['use_backup']),
+                'after two overlapping operations completed a fresh driver does not hold the acknowledged data (%s)' % (
+                    '; '.join(errors) or (post if st != 'ok' else 'different store')),
+                hist, None, fs1, pre, post_mem, (st, post))
+        if rec.off_thread:
+            self.res['tie_failures'].append({'note': 'file operations of a save ran off the event-loop thread: operations are '
+                                                     'not one synchronous step (model: memory change + save without suspension)',
+                                             'origin': origin})
+        states, _fs_end, _err = crash_states(fs0, events, rng)
+        seen = {}
+        cur = {}
+        for point, files in states:
+            self.stats['crash_states'] += 1
+            key = tuple(sorted(files.items()))
+            if key not in seen:
+                write_dir(recd, files, None)
+                seen[key] = self.fresh(rpath, h)
+                self.stats['recoveries'] += 1
+            st, got = seen[key]
+            acked = set(point['acked'])
+            ok = st == 'ok' and any(done >= acked and got == store for done, store in cands)
+            self.bump('batch:' + ('ok' if ok else 'bad'))
+            if not ok:
+                lost = st == 'ok' and any(got == store for done, store in cands)
+                self.add_violation(
+                    ('overlapping operations: ' + ('acknowledged operation lost' if lost else 'store is no combination of the operations'),
+                     'failure' if st != 'ok' else 'other', h['use_backup']),
+                    'two operations in flight; process dies before %s (operations already acknowledged: %s): a fresh driver %s' % (
+                        point['call'], sorted(acked) or 'none',
+                        'fails to start (%s)' % (got,) if st != 'ok' else
+                        'holds a store without an acknowledged operation' if lost else 'holds a store that is no combination of them'),
+                    hist, point, files, pre, post_mem, (st, got))
+        return not errors and st != 'fail'
 
     # -- one history ----------------------------------------------------------------------------------------------
     def run_history(self, h, origin):
@@ -430,13 +626,19 @@ class Runner:
                     done_ops.append(op)
                     continue
                 done_ops.append(op)
+                if op['op'] == 'concurrent':
+                    if not self.run_batch(driver, op, h, rec, live, path, recd, rpath, done_ops, origin):
+                        return
+                    rec_current = read_dir(recd)
+                    continue
                 fs0 = read_dir(live)
                 st, pre = self.fresh(path, h)
                 if st != 'ok':
                     self.res['tie_failures'].append('files at rest do not load: %s' % pre)
                     return
                 pre = copy.deepcopy(pre)
-                rec.events, rec.active = [], True
+                rec.reset()
+                rec.active = True
                 try:
                     self.apply(driver, op)
                     op_error = None
@@ -452,6 +654,14 @@ class Runner:
                         self.res['tie_failures'].append('operation failed: ' + op_error)
                     continue
                 self.stats['saves'] += 1
+                n_saves = sum(1 for e in events if e[0] == 'create')
+                if n_saves != 1 or rec.off_thread:
+                    self.res['tie_failures'].append({
+                        'note': 'one %s performed %d saves%s (model: an operation = in-memory change + exactly one synchronous '
+                                'save)' % (op['op'], n_saves, ', off the event-loop thread' if rec.off_thread else ''),
+                        'origin': origin, 'op': enc(op)})
+                if len(events) and n_saves > 1:
+                    self.bump('op-with-several-saves')
                 fs1 = read_dir(live)
                 post_mem = copy.deepcopy(driver._data)
                 st, post = self.fresh(path, h)
@@ -480,7 +690,8 @@ class Runner:
                 payload = b''.join(e[2] for e in events if e[0] == 'write')
                 self.bump('payload<=%d' % (64 if len(payload) <= 64 else 400 if len(payload) <= 400 else 4000 if len(payload) <= 4000
                                            else 10 ** 6))
-                self.check_premises(payload, post, h, rng, origin)
+                if n_saves == 1:
+                    self.check_premises(payload, post, h, rng, origin)
                 # initial abstract state
                 init, preblob = self.initial(fs0, fname, h['use_backup'], pre)
                 # recover from every crash state
@@ -778,7 +989,11 @@ LEVEL_TEXT = (
     'result chains over whole histories of saves, crashes and restarts starting from no files; a completed save is readable. '
     'Proved once for all programs by a sound abstract interpretation (simulation proof by induction on the op list and on the '
     'load tree); the regenerated program is then decided by vm_compute.  The real driver is run on random histories with every '
-    'crash state materialised: spec oracle (pre or post) and model correspondence (system calls, crash states, load outcomes).'
+    'crash state materialised: spec oracle (pre or post) and model correspondence (system calls, crash states, load outcomes).  '
+    'Operation level: the control skeleton of every saving method (insert/update/replace/remove) is regenerated as an operation '
+    'tree; every path performs at most one save, as its last step, so a multi-record update/remove is all-or-nothing '
+    '(C08_operation_atomic/_durable); overlapping requests are run on the real driver with every crash state and '
+    'acknowledgement tracking.'
 )
 LEVEL_NOTE = (
     'Trusted: Coq kernel incl. vm_compute; translator saveprog.py (closed list of statement shapes, exception routing); the '
